@@ -53,7 +53,7 @@ impl Property for C13 {
          oracle = brute force over EVERY lattice point of the box and EVERY integer slack value in the new variable's bounds, in exact rational arithmetic; non-trivial = converted, >=2 variables, both feasible and infeasible lattice points; distinct = sha256(instance, call)"
     }
     fn required_labels(&self) -> Vec<String> {
-        ["outcome=converted", "outcome=relaxed", "outcome=infeasible", "outcome=range-exceeded", "reject=unknown-id", "reject=equality", "reject=continuous", "reject=undefined-variable", "rational-coeff", "quadratic", "op=convert", "op=add-slack", "other-constraints", "negative-box", "binary-variable", "unsorted-variable-list", "limit=needed", "limit=needed-1", "second-conversion"].iter().map(|s| s.to_string()).collect()
+        ["outcome=converted", "outcome=relaxed", "outcome=infeasible", "outcome=range-exceeded", "reject=unknown-id", "reject=equality", "reject=continuous", "reject=undefined-variable", "rational-coeff", "quadratic", "op=convert", "op=add-slack", "other-constraints", "negative-box", "binary-variable", "unsorted-variable-list", "limit=needed", "limit=needed-1", "second-conversion", "integer-linear-max-exactly-zero"].iter().map(|s| s.to_string()).collect()
     }
     fn cases(&self, tier: Tier) -> usize {
         match tier {
@@ -321,6 +321,10 @@ impl Property for C13 {
         if limit + 1 == needed_exact {
             ctx.label("limit=needed-1");
         }
+        let int_coeffs = terms.iter().all(|(_, c)| c.fract() == 0.0);
+        if linear && int_coeffs && reject == 0 && vals.iter().all(|v| *v <= Q::zero()) && vals.iter().any(|v| v.is_zero()) {
+            ctx.label("integer-linear-max-exactly-zero");
+        }
         ctx.fp_msg(&inst);
         ctx.fp(&[op_add as u8, reject as u8]);
         ctx.fp(&limit.to_le_bytes());
@@ -430,6 +434,11 @@ impl Property for C13 {
                         // for linear f: if the inequality can never hold / always holds the call must say so
                         if linear && !any_feas {
                             return fail("C13/infeasible-not-detected", format!("no lattice point satisfies the linear inequality but the call converted it: {}", what()));
+                        }
+                        if linear && int_coeffs && vals.iter().all(|v| *v <= Q::zero()) {
+                            // integer coefficients over an integer box: interval arithmetic is exact in f64, so "max f = 0"
+                            // is shown by interval analysis just as well as "max f < 0"
+                            return fail("C13/always-satisfied-not-relaxed/max=0", format!("every point satisfies the integer linear inequality (max f = 0 exactly) but it was not relaxed: {}", what()));
                         }
                         if linear && vals.iter().all(|v| *v <= q(-1e-9)) {
                             // interval analysis is exact for linear functions over a box whose corners are lattice points
